@@ -8,5 +8,15 @@ pub(crate) fn kani_reader(sync_seqn: u32) -> WalBlobReader {
     WalBlobReader { wal: Vec::new(), offset: 0, sync_seqn }
 }
 
+/// A reader over a finished blob (what WalBlobReader::new builds after reading the file).
+pub(crate) fn kani_reader_over(wal: Vec<u8>) -> WalBlobReader {
+    let mut r = WalBlobReader { wal, offset: 0, sync_seqn: 0 };
+    r.read_start().unwrap();
+    r
+}
+pub(crate) fn kani_reader_offset(r: &WalBlobReader) -> usize {
+    r.offset
+}
+
 #[cfg(test)]
 include!("/verif/.build/playback/bitbox_wal_read.inc");
